@@ -209,7 +209,7 @@ def run(ctx: core.Ctx):
     ctx.assumptions += ["bytes.decode('utf-8','replace') on invalid input is not modelled (such packets are compared by count only)",
                         "CPython's re engine implements the documented semantics of the pattern"]
     from .. import b2check
-    b2check.run_b2(ctx, thread_jobs, ["C02t", "C10"], label="chunked arrival through the real reader thread", accept=False)
+    b2check.run_b2(ctx, thread_jobs, ["C02t"], label="chunked arrival through the real reader thread", accept=False)
     return ctx.finish()
 
 
@@ -217,7 +217,7 @@ def replay(ctx, path):
     rp = json.load(open(path))["replay"]
     if rp.get("path") == "b2":
         from .. import b2check
-        return b2check.replay_b2(rp, ["C02t", "C10"])
+        return b2check.replay_b2(rp, ["C02t"])
     from ynca.connection import YncaProtocol
     p = YncaProtocol(lambda *a: print("impl callback:", a), None, 0)
     if "line" in rp:
